@@ -1488,13 +1488,43 @@ func (c *Ctx) nameUnknownGuard(lits []Lit) bool {
 // resolveOrderFused recognises the single-pass form of ImportMap.Find (see the call site) and returns the priority
 // order it implements.
 func (c *Ctx) resolveOrderFused(find *ssa.Function) ([]string, bool) {
-	P := c.P
-	short0 := P.Desc(find.Params[1])
 	loops := naturalLoops(find)
-	if len(loops) != 1 {
+	if len(loops) == 0 {
 		return dbgFused(1)
 	}
-	lp := loops[0]
+	// one pass after the other: each loop over the entries is a phase with at most one kind returned at once and
+	// the kinds it keeps in variables returned behind it
+	sort.Slice(loops, func(i, j int) bool { return loops[i].head.Index < loops[j].head.Index })
+	for i := 0; i+1 < len(loops); i++ {
+		if !dominates(loops[i].head, loops[i+1].head) || loops[i].body[loops[i+1].head] {
+			return dbgFused(10)
+		}
+	}
+	claimed := map[*ssa.Return]bool{}
+	var kinds []string
+	for i, lp := range loops {
+		ks, ok := c.resolveOrderFusedLoop(find, lp, i == len(loops)-1, claimed)
+		if !ok {
+			return nil, false
+		}
+		kinds = append(kinds, ks...)
+	}
+	// every result of Find belongs to one of the passes
+	all := true
+	allInstrs(find, func(_ *ssa.BasicBlock, ins ssa.Instruction) {
+		if r, ok := ins.(*ssa.Return); ok && len(r.Results) == 1 && !isNilConst(r.Results[0]) && !claimed[r] {
+			all = false
+		}
+	})
+	if !all {
+		return dbgFused(11)
+	}
+	return kinds, true
+}
+
+func (c *Ctx) resolveOrderFusedLoop(find *ssa.Function, lp natLoop, lastLoop bool, claimed map[*ssa.Return]bool) ([]string, bool) {
+	P := c.P
+	short0 := P.Desc(find.Params[1])
 	kindOf := func(lits []Lit) string {
 		kind := ""
 		for _, l := range lits {
@@ -1537,8 +1567,7 @@ func (c *Ctx) resolveOrderFused(find *ssa.Function) ([]string, bool) {
 		if _, isElem := r.Results[0].(*ssa.IndexAddr); isElem {
 			// the immediate return inside the pass: the element itself, under its kind's condition
 			if len(b.Preds) != 1 || !lp.body[b.Preds[0]] {
-				bad = true
-				return
+				return // (of another pass)
 			}
 			k := kindOf(P.BlockGuards(b))
 			if k == "" {
@@ -1546,18 +1575,19 @@ func (c *Ctx) resolveOrderFused(find *ssa.Function) ([]string, bool) {
 				return
 			}
 			inLoop++
+			claimed[r] = true
 			kinds = append(kinds, k)
 			return
 		}
 		// after the pass: a variable carried by the loop
 		phi, ok := r.Results[0].(*ssa.Phi)
 		if !ok || phi.Block() != lp.head {
-			bad = true
-			return
+			return // (of another pass, or of none: the caller counts)
 		}
+		claimed[r] = true
 		posts = append(posts, post{"", phi, b})
 	})
-	if bad || inLoop != 1 || len(posts) == 0 {
+	if bad || inLoop > 1 || (inLoop == 0 && len(posts) == 0) {
 		return dbgFused(2)
 	}
 	// the pass is left early only by the immediate return
@@ -1697,7 +1727,7 @@ func (c *Ctx) resolveOrderFused(find *ssa.Function) ([]string, bool) {
 				return dbgFused(8)
 			}
 		}
-		if i < len(posts)-1 && !nilTested(pp.v, pp.blk, false) {
+		if (i < len(posts)-1 || !lastLoop) && !nilTested(pp.v, pp.blk, false) {
 			return dbgFused(9)
 		}
 		kinds = append(kinds, pp.kind)
